@@ -20,7 +20,7 @@ func init() { register("C10", true, checkC10) }
 
 func checkC10(c *Ctx) {
 	c.Rule("C10.R3", "the geometry returned with an error by a member Transform is not type-asserted/indexed/returned-with-nil-error before the error is tested")
-	c.Rule("C10.R4", "Transform: t==nil returns the receiver; otherwise a fresh value of the receiver's shape filled by an identity-index copy out[i]=t(in[i]) over the full range; the transformer is called as (w.X, w.Y, err) = t(v.X, v.Y); no store into the receiver")
+	c.Rule("C10.R4", "Transform, evaluated on small geometries with a host transformer T: t==nil returns the receiver; otherwise a value of the receiver's shape and type whose i-th vertex is T(i-th vertex), in fresh storage, the receiver untouched, T called once per vertex in storage order (*Bounds → its four corners as a ring); a failure of T at any vertex comes back as a non-nil error and nothing panics")
 	pk := c.P.Pkg("geom")
 	info := pk.TypesInfo
 	for _, tn := range geomTypes {
@@ -40,8 +40,8 @@ func checkC10(c *Ctx) {
 		} else {
 			c.OK("C10.R3", name, fd.Pos(), "%d (value, err) pairs tracked, none used before the error test", tracked)
 		}
-		c10structure(c, info, tn, m, fd)
 	}
+	c10model(c, "C10.R4")
 	c.Floor("C10.R3", 8)
 	c.Floor("C10.R4", 8)
 	c10proj(c)
